@@ -563,3 +563,56 @@ class _TwDgramConn(_Conn):
 
     def close(self):
         pass
+
+
+# ----------------------------------------------------------------- watchdog
+class Stuck(BaseException):
+    """the code under test did not give control back (busy loop) in an operation that takes milliseconds"""
+
+
+_WATCH_DEPTH = [0]
+WATCH_SECONDS = 4.0
+
+
+def _watched(fn, ret):
+    import functools
+    import signal
+    import threading
+
+    @functools.wraps(fn)
+    def wrapper(self, *a, **k):
+        if getattr(self, '_dead', False):
+            return ret() if callable(ret) else ret
+        outer = _WATCH_DEPTH[0] == 0 and threading.current_thread() is threading.main_thread()
+        if outer:
+            def on_alarm(signum, frame):
+                raise Stuck('no return within %.0f s' % WATCH_SECONDS)
+            old = signal.signal(signal.SIGALRM, on_alarm)
+            signal.setitimer(signal.ITIMER_REAL, WATCH_SECONDS)
+        _WATCH_DEPTH[0] += 1
+        try:
+            return fn(self, *a, **k)
+        except Stuck as e:
+            srv = self if isinstance(self, Server) else getattr(self, 'srv', None)
+            if srv is not None:
+                srv.escaped.append(('%s.%s' % (type(self).__name__, fn.__name__), e))
+            try:
+                self._dead = True
+                self.closed = True
+            except Exception:   # noqa
+                pass
+            return ret() if callable(ret) else ret
+        finally:
+            _WATCH_DEPTH[0] -= 1
+            if outer:
+                signal.setitimer(signal.ITIMER_REAL, 0)
+                signal.signal(signal.SIGALRM, old)
+    return wrapper
+
+
+for _cls in (_SyncStream, _SyncSerial, _SyncDgram, _AioStream, _AioDgram, _TwStream, _TwDgramConn, _Conn):
+    for _name, _ret in (('feed', list), ('run_script', list), ('burst', list), ('close', None), ('__init__', None)):
+        if _name in _cls.__dict__:
+            setattr(_cls, _name, _watched(_cls.__dict__[_name], _ret))
+Server.dgram_burst = _watched(Server.dgram_burst, list)
+
